@@ -271,3 +271,243 @@ func (p *Program) paramObjDecl(f *Func, decl *ast.FuncDecl) (*ast.FuncDecl, func
 	}
 	return nd, subst
 }
+
+// closureParamObjects does for a local closure what paramObjects does for a declared function: `collect :=
+// func(site commentSite) { … site.group … }` called as `collect(commentSite{group: g, …})` is shown as `collect := func(group
+// …, …) { … }` called as `collect(g, …)`. The closure variable must be defined once by the literal and only ever be
+// called, each time with a literal of the struct; the parameter only read field by field. Because the calls sit inside
+// other literals the whole body is copied (literals included; the view then has literals of its own).
+func closureParamObjects(info *types.Info, pkg *types.Package, body *ast.BlockStmt) (*ast.BlockStmt, bool) {
+	type cand struct {
+		x      *types.Var // the closure variable
+		lit    *ast.FuncLit
+		q      *types.Var // the parameter object
+		qIdx   int
+		st     *types.Struct
+		fields []*types.Var
+	}
+	var cands []*cand
+	ast.Inspect(body, func(n ast.Node) bool {
+		as, ok := n.(*ast.AssignStmt)
+		if !ok || as.Tok != token.DEFINE || len(as.Lhs) != 1 || len(as.Rhs) != 1 {
+			return true
+		}
+		lit, isLit := ast.Unparen(as.Rhs[0]).(*ast.FuncLit)
+		id, isID := as.Lhs[0].(*ast.Ident)
+		if !isLit || !isID {
+			return true
+		}
+		x, _ := info.Defs[id].(*types.Var)
+		if x == nil {
+			return true
+		}
+		i := 0
+		for _, fld := range lit.Type.Params.List {
+			for _, nme := range fld.Names {
+				idx := i
+				i++
+				q, _ := info.ObjectOf(nme).(*types.Var)
+				if q == nil {
+					continue
+				}
+				nt, ok := types.Unalias(q.Type()).(*types.Named)
+				if !ok || nt.Obj().Pkg() != pkg || nt.Obj().Exported() || nt.NumMethods() != 0 {
+					continue
+				}
+				st, ok := nt.Underlying().(*types.Struct)
+				if !ok || st.NumFields() == 0 {
+					continue
+				}
+				cands = append(cands, &cand{x: x, lit: lit, q: q, qIdx: idx, st: st})
+			}
+			if len(fld.Names) == 0 {
+				i++
+			}
+		}
+		return true
+	})
+	var good []*cand
+	for _, c := range cands {
+		ok := true
+		// q: only read field by field inside the literal
+		var stack []ast.Node
+		ast.Inspect(c.lit.Body, func(n ast.Node) bool {
+			if n == nil {
+				stack = stack[:len(stack)-1]
+				return true
+			}
+			stack = append(stack, n)
+			id, isID := n.(*ast.Ident)
+			if !isID || info.ObjectOf(id) != types.Object(c.q) {
+				return true
+			}
+			if len(stack) < 2 {
+				ok = false
+				return true
+			}
+			sel, isSel := stack[len(stack)-2].(*ast.SelectorExpr)
+			if !isSel || sel.X != ast.Expr(id) {
+				ok = false
+				return true
+			}
+			if len(stack) >= 3 {
+				switch par := stack[len(stack)-3].(type) {
+				case *ast.AssignStmt:
+					for _, l := range par.Lhs {
+						if l == ast.Expr(sel) {
+							ok = false
+						}
+					}
+				case *ast.IncDecStmt:
+					ok = false
+				case *ast.UnaryExpr:
+					if par.Op == token.AND {
+						ok = false
+					}
+				}
+			}
+			return true
+		})
+		// x: defined once, only called, with a literal
+		uses := 0
+		stack = nil
+		ast.Inspect(body, func(n ast.Node) bool {
+			if n == nil {
+				stack = stack[:len(stack)-1]
+				return true
+			}
+			stack = append(stack, n)
+			id, isID := n.(*ast.Ident)
+			if !isID || info.Uses[id] != types.Object(c.x) {
+				return true
+			}
+			uses++
+			call, isCall := stack[len(stack)-2].(*ast.CallExpr)
+			if !isCall || call.Fun != ast.Expr(id) || c.qIdx >= len(call.Args) || call.Ellipsis.IsValid() {
+				ok = false
+				return true
+			}
+			if _, isLit := ast.Unparen(call.Args[c.qIdx]).(*ast.CompositeLit); !isLit {
+				ok = false
+			}
+			return true
+		})
+		if ok && uses > 0 {
+			for j := 0; j < c.st.NumFields(); j++ {
+				fv := c.st.Field(j)
+				c.fields = append(c.fields, types.NewVar(c.q.Pos(), pkg, c.q.Name()+"_"+fv.Name(), fv.Type()))
+			}
+			good = append(good, c)
+		}
+	}
+	if len(good) == 0 {
+		return body, false
+	}
+	byQ := map[types.Object]*cand{}
+	byX := map[types.Object]*cand{}
+	for _, c := range good {
+		byQ[c.q] = c
+		byX[c.x] = c
+	}
+	cl := &cloner{info: info, lits: true, made: map[ast.Node]ast.Node{}}
+	failed := false
+	cl.subst = func(e ast.Expr) ast.Expr {
+		switch x := e.(type) {
+		case *ast.SelectorExpr:
+			if id, ok := ast.Unparen(x.X).(*ast.Ident); ok {
+				if c, is := byQ[info.ObjectOf(id)]; is {
+					for j := 0; j < c.st.NumFields(); j++ {
+						if c.st.Field(j).Name() == x.Sel.Name {
+							use := &ast.Ident{NamePos: x.Pos(), Name: c.fields[j].Name()}
+							info.Uses[use] = c.fields[j]
+							return use
+						}
+					}
+				}
+			}
+		case *ast.CallExpr:
+			id, ok := x.Fun.(*ast.Ident)
+			if !ok {
+				return nil
+			}
+			c, is := byX[info.Uses[id]]
+			if !is {
+				return nil
+			}
+			nc := &ast.CallExpr{Fun: cl.expr(x.Fun), Lparen: x.Lparen, Rparen: x.Rparen}
+			for i, a := range x.Args {
+				if i != c.qIdx {
+					nc.Args = append(nc.Args, cl.expr(a))
+					continue
+				}
+				lit := ast.Unparen(a).(*ast.CompositeLit)
+				for j := 0; j < c.st.NumFields(); j++ {
+					name := c.st.Field(j).Name()
+					var val ast.Expr
+					for k, el := range lit.Elts {
+						if kv, isKV := el.(*ast.KeyValueExpr); isKV {
+							if kid, isID := kv.Key.(*ast.Ident); isID && kid.Name == name {
+								val = kv.Value
+							}
+						} else if k == j {
+							val = el
+						}
+					}
+					if val == nil {
+						val = zeroExpr(info, c.st.Field(j).Type(), lit.Pos())
+						if val == nil {
+							failed = true
+							return nil
+						}
+						nc.Args = append(nc.Args, val)
+						continue
+					}
+					nc.Args = append(nc.Args, cl.expr(val))
+				}
+			}
+			if tv, has := info.Types[x]; has {
+				info.Types[nc] = tv
+			}
+			return nc
+		}
+		return nil
+	}
+	nb := cl.block(body)
+	if failed {
+		return body, false
+	}
+	// the literals' parameter lists
+	for _, c := range good {
+		nl, _ := cl.made[c.lit].(*ast.FuncLit)
+		if nl == nil {
+			return body, false
+		}
+		var list []*ast.Field
+		for _, fld := range nl.Type.Params.List {
+			var keep []*ast.Ident
+			flush := func() {
+				if len(keep) > 0 {
+					list = append(list, &ast.Field{Names: keep, Type: fld.Type})
+					keep = nil
+				}
+			}
+			for _, nme := range fld.Names {
+				if info.ObjectOf(nme) != types.Object(c.q) {
+					keep = append(keep, nme)
+					continue
+				}
+				flush()
+				for _, fv := range c.fields {
+					fid := &ast.Ident{NamePos: nme.NamePos, Name: fv.Name()}
+					info.Defs[fid] = fv
+					tid := &ast.Ident{NamePos: nme.NamePos, Name: types.TypeString(fv.Type(), nil)}
+					info.Types[tid] = types.TypeAndValue{Type: fv.Type()}
+					list = append(list, &ast.Field{Names: []*ast.Ident{fid}, Type: tid})
+				}
+			}
+			flush()
+		}
+		nl.Type = &ast.FuncType{Func: nl.Type.Func, Params: &ast.FieldList{List: list}, Results: nl.Type.Results}
+	}
+	return nb, true
+}
